@@ -12,12 +12,19 @@
 //! |-------------|----------------------------------------------------------------|----------------|
 //! | `tmpsc`     | mpsc bounded(1,2) / unbounded, tasks (+ cancellation)          | fam_mpsc.rs    |
 //! | `tmpsc_thr` | the same from plain threads (blocking_* and try_*)             | fam_mpsc.rs    |
-//! | `toneshot`  | oneshot                                                        | fam_oneshot.rs |
-//! | `twatch`    | watch                                                          | fam_watch.rs   |
-//! | `tnotify`   | Notify (with a data menu for the random waiter choice)        | fam_notify.rs  |
+//! | `toneshot`  | oneshot (+ cancellation of `rx.await` / `tx.closed()`)         | fam_oneshot.rs |
+//! | `twatch`    | watch incl. send_modify / send_replace / wait_for (+ cancellation of `changed` / `wait_for` / `closed`) | fam_watch.rs |
+//! | `tnotify`   | Notify (with a data menu for the random waiter choice; + cancellation of waiters, incl. the one `notify_one` chose) | fam_notify.rs |
 //! | `tlock`     | Mutex / RwLock / Semaphore (+ cancellation of queued requests) | fam_lock.rs    |
 //! | `ttask`     | task::spawn / JoinHandle / abort / JoinSet, sleep, interval    | fam_task.rs    |
 //! | `ttime`     | time::timeout with the trigger_timeouts / clear_triggers hooks | fam_task.rs    |
+//!
+//! Cancellation of a task suspended inside an awaiting operation comes in two forms in every one of
+//! `tmpsc`, `toneshot`, `twatch`, `tnotify` (and `tlock` / `ttime` for `acquire`): `JoinHandle::abort`
+//! (`GOp::Abort`; destructors that take scheduling steps of their own — a dropped `Notified` passing
+//! its notification on, a dropped last watch handle waking the other side — are modelled step by step
+//! through `Family::m_cancel_begin` / `m_cancel_step`) and `time::timeout(..)` expired by
+//! `trigger_timeouts` (ops `Timeout*`, `TriggerAll`, `ClearTriggers`).
 //!
 //! `patches/` holds the small fixes proposed for the findings of this check (not applied).
 mod driver;
